@@ -264,6 +264,14 @@ def one(ctx, i):
     if placement == 'inside':
         thr_si = lo + rng.uniform(0.05, 0.95) * span
         thr = GEN.Q(KIND[sk], thr_si / SI.FACT[KIND[sk]][ku], ku)
+        if rng.random() < 0.35:
+            # a threshold typed as a python int (90 deg, 1500 rpm): in a unit fine enough for the rounding to stay inside the range
+            for ku_ in sorted(SI.units(KIND[sk]), key=lambda u_: rng.random()):
+                vi = thr_si / SI.FACT[KIND[sk]][ku_]
+                if abs(vi) >= 3 and abs(round(vi) - vi) * SI.FACT[KIND[sk]][ku_] < 0.02 * span and abs(vi) < 1e15:
+                    thr = GEN.Q(KIND[sk], int(round(vi)), ku_)
+                    ctx.count('int_valued_thresholds')
+                    break
     elif placement in ('exact', 'ulp'):
         k = rng.randint(max(first_checked, 2), N - 1) if N - 1 >= max(first_checked, 2) else N - 1
         v, u = raw[k]
